@@ -35,6 +35,23 @@ prop("C16", [
                  "deplete is evaluated at the same clock reading as the check that granted it (single task; read-then-write race not modelled)"])
 
 
+POOL_B = dict(engine="sql", rows_quick=2, rows_thorough=3)
+prop("C01", [
+    dict(engine="verus", unit="pool"),
+    dict(POOL_B, checks=["sql_in_use", "allocate_address/C01", "allocate_address/C13"]),
+], explanation="allocate_address never grants an address on which another client has an unexpired row; lemma over that contract; SQL contracts bounded on real SQLite",
+    assumptions=["pool mutex: handlers verified as a single task (true interleaving not modelled)",
+                 "wall clock monotone and below 0xF0000000 (Pool::verif_now stub)",
+                 "SQL statement contracts are assumed by the proof; engine B checks them only within its bound"])
+prop("C09", [
+    dict(engine="verus", unit="pool", fns=["Pool::select_requested_address", "Pool::select_new_address", "Pool::select_address", "Pool::allocate_address"]),
+    dict(POOL_B, checks=["sql_in_use", "allocate_address/C09"]),
+], explanation="select_address: a held in-pool address is kept (requested one first); refusal only on exhaustion",
+    assumptions=["SQL statement contracts assumed; engine B bounded", "Display/FromStr of Ipv4Addr are inverse on canonical text (axioms)"])
+prop("C20", [
+    dict(POOL_B, checks=["sql_metrics", "sql_list"]),
+], level="exploration", explanation="gauge query and lease listing query against the row set, bounded exhaustive on real SQLite")
+
 prop("C03", [
     dict(engine="verus", unit="dnsreply", fns=["DnsListenerHandler::create_in_reply"]),
 ], explanation="create_in_reply: the client reply is the upstream reply under the client's id and question, for any number of records")
@@ -126,8 +143,13 @@ def run_verus(pid, task, tier, scratch):
             ok = r["status"] == "ok"   # no SMT query needed (trivial) and verus reported overall success
         out["obligations"].append(dict(name="%s::%s" % (unit, name), ok=ok, kind="proved", origin=f["origin"], ms=f["time_ms"]))
         out["functions_under_contract"].append("%s (%s)" % (name, f["origin"]))
+    import re as _re
     for name, f in r.get("aux_items", {}).items():
         if not claimed(pid, task, tags, name):
+            continue
+        # constants, derived/axiomatised Clone impls and stub declarations generate trivial items: not obligations
+        last = name.split("::")[-1]
+        if _re.match(r"^[A-Z0-9_]+$", last) or last == "clone" or "impl&%" in name or last.startswith("verif_") or last.startswith("axiom_"):
             continue
         out["obligations"].append(dict(name="%s::%s" % (unit, name), ok=bool(f["success"]), kind="proved", origin="contracts/%s.vc" % unit, ms=f["time_ms"]))
     for fn, fl in failing.items():
